@@ -52,6 +52,12 @@ def gStep (g : GMap) : GOp → GMap
 /-- Any sequence of construction calls on the zero-value graph. -/
 def gBuild (ops : List GOp) : GMap := ops.foldl gStep []
 
+/-- `g.Init(cap)`: `g.Nodes = make(map…, cap)` — a fresh empty map, whatever the graph was. -/
+def gInit (_ : GMap) : GMap := []
+
+/-- The keys of `g.Nodes` (in insertion order; Go ranges over them in random order). -/
+def gKeys (g : GMap) : List Nat := g.map (·.1)
+
 /-- `u ∈ g.Nodes[v]` — the only thing `BronKerbosch` asks of the graph. -/
 def gNb (g : GMap) (v u : Nat) : Bool :=
   match gLookup g v with
